@@ -20,7 +20,8 @@ DECIDED = ["R28a commit index is monotone (DOM over comparison edges, WHO for St
            "R28b requests are validated before they change state (DOM over `?` Ok edges)",
            "R28c no entry at or below the commit index is accepted (DOM)",
            "R28d only uncommitted entries are removed from the log (WHO + value flow)",
-           "R28e the leader commits only what a quorum provably holds (strict majority, current-term test, previous-entry test)"]
+           "R28e the leader commits only what a quorum provably holds (strict majority, current-term test, previous-entry test)",
+           "R28h a follower's cached log tip / commit index is updated only after the storage accepted the write (DOM)"]
 UNDECIDED = ["agreement of committed entries over message schedules (needs execution; see findings/server/F18)",
              "that the log database returns elements in the order of the ids passed to it"]
 
@@ -497,6 +498,36 @@ def rule_reconcile_from_commit(ctx, rule="R28f"):
     ctx.ob(rule, "reconcile:resend-from-commit", ok, detail, b.where)
 
 
+def rule_cached_tip_follows_storage(ctx, rule="R28h"):
+    """What a follower reports as its log tip / commit index (the cached Node fields that validate_log answers heartbeats
+    from, and that the leader counts in its quorum) is updated only after the storage accepted the entry: in
+    append_storage / commit_storage the writes to local().log_index / log_term / log_commit lie behind the Ok edge of
+    `storage.append(..).await?` / `storage.commit(..).await?`.  Updated first, a failed append still looks replicated:
+    the next heartbeat is acknowledged, the leader commits an entry only it stores, and the follower - advertising the
+    inflated tip - can win the next election without it."""
+    fa = ctx.facts
+    for fn, scall, fields in (("append_storage", "append", ("log_index", "log_term")), ("commit_storage", "commit", ("log_commit",))):
+        b = anchor_code(ctx, rule, CL + fn)
+        if not b:
+            continue
+        sc = [(i, t) for i, t in cfg.calls(b) if (cfg.callee_decl(t) or cfg.callee(t) or "").endswith("raft::Storage::" + scall)]
+        edges = []
+        for i, t in sc:
+            for te in cfg.try_edges(b, cfg.derived_locals(b, [t["d"][0]])):
+                if te["ok_edge"]:
+                    edges.append(te["ok_edge"])
+        writes = []
+        for bi, st in cfg.assigns(b):
+            l = st["l"]
+            if len(l) > 1 and isinstance(l[-1], str) and l[-1][1:] in fields:
+                writes.append(bi)
+        ok = bool(sc and edges and writes) and all(cfg.find_path(b, [0], [w], removed_edges=edges) is None for w in writes)
+        ctx.ob(rule, "%s:cache-after-storage" % fn, ok,
+               "local().%s written only after storage.%s(..).await? succeeded" % ("/".join(fields), scall) if ok else
+               "`%s` updates the cached %s without (or before) a successful storage.%s: a failed write still looks "
+               "replicated / committed to the leader" % (fn, "/".join(fields), scall), b.where)
+
+
 def run(ctx):
     # two leaders in one term each commit their own entry at the same index: C27's election rules are a
     # precondition of log agreement and are re-evaluated under this property
@@ -508,4 +539,5 @@ def run(ctx):
     rule_remove_uncommitted_only(ctx)
     rule_commit_quorum(ctx)
     rule_prev_check(ctx)
+    rule_cached_tip_follows_storage(ctx)
     return 0
